@@ -117,7 +117,7 @@ CLAIMED = {
     text='Slice: the limit/eviction glue of mem_cache<Setup>. check_limits: afterwards the cache is empty or strictly below its limit (limit 0 = unlimited), exactly size_before - size_after nodes were deleted, and EVERY victim was the one the policy prescribes: '
          'the entry with the smallest deadline if that deadline has passed, otherwise the least recently used one (checked as the precondition of delete_node at each call, against a ghost oracle fixed at the start of every iteration whether or not the code looks at it). '
          'store: with a limit of n entries the cache never holds more than n after a store; the new entry goes to the FRONT of the LRU list (fetch moves a hit to the front as well, job mc_fetch). delete_node releases the node from all four structures; '
-         'the reported key and trigger counts equal the container cardinalities (representation invariant kept by every function). add_trigger (one more counted link, remembered by the node), nl_clear (everything emptied, both counters reset) and stats (reported counts = cardinalities) are under contract too. Buddy allocator arithmetic (unit buddy): containts_bits = floor(log2), get_bits = smallest order holding n bytes, get_buddy = the other half of the enclosing page (same size, disjoint, one page size away, inside the arena) or none when it would stick out.',
+         'the reported key and trigger counts equal the container cardinalities (representation invariant kept by every function). add_trigger (one more counted link, remembered by the node), nl_clear (everything emptied, both counters reset) and stats (reported counts = cardinalities) are under contract too. Buddy allocator arithmetic (unit buddy): containts_bits = floor(log2), get_bits = an order whose page holds n bytes, get_buddy = the other half of the enclosing page (same size, disjoint, one page size away, inside the arena) or none when it would stick out.',
     note=TRUST + 'NOT covered: that the back of std::list is the least recently used entry is list semantics (front insertion on store/fetch and back eviction are under contract); the free-list manipulation of the buddy allocator (page_alloc / free_page: linked pages, no inductive predicate within reach) and hence "memory of removed entries is released" for the process-shared cache; '
          'not_enough_memory()/size_limit() are arbitrary (when memory pressure was reported the size bound is not claimed); statistics over histories. Observation: store() compares the ENTRY COUNT `size` with Setup::size_limit() (bytes/20) - the per-item size guard is ineffective.',
     design='4 (C07/C08)', technique='cbmc code contracts (dfcc) + loop contracts; policy oracle as ghost candidate + callee precondition; chunked solving'),
